@@ -111,7 +111,36 @@ def random_program(r: Rng, n=None, allow_bad=False):
     return lines
 
 
+RESERVED = set(ALL + OPR + ["OPR", "DATA", "FUNC", "PROC"])
+LONG_TAILS = ["_of_the_program", "_counter_for_the_outer_loop", "_x", "_write_character_to_the_stream", "_a_rather_long_label_name_indeed"]
+
+
+def long_names(r: Rng, lines):
+    """The same program with every label renamed to a long identifier (consistently): a listing line `MNEMONIC label (value)`
+    then exceeds any fixed column width."""
+    ren = {}
+
+    def name(tok):
+        if tok not in ren:
+            ren[tok] = tok + r.choice(LONG_TAILS) + str(len(ren))
+        return ren[tok]
+
+    out = []
+    for l in lines:
+        toks = l.split(" ")
+        new = []
+        for t in toks:
+            if t and (t[0].isalpha() or t[0] == "_") and t not in RESERVED:
+                new.append(name(t))
+            else:
+                new.append(t)
+        out.append(" ".join(new))
+    return out
+
+
 def render(r: Rng, lines):
+    if lines and r.chance(1, 4) and not any(l.startswith("#") for l in lines):
+        lines = long_names(r, lines)
     out = []
     for l in lines:
         if r.chance(1, 15):
